@@ -177,6 +177,9 @@ type State struct {
 	siteCtr int // per-path counter naming fork sites
 	reached []string
 	sharded bool
+	dom     *lmap[*Term, *[4]uint64] // feasible-value superset per 8-bit variable
+	multi   *lmap[*Term, bool]       // variables constrained together with other variables
+	pcSeen  int                      // number of pc conjuncts already folded into dom
 	thread  int
 	tag     string
 	asserts int // number of vfAssert evaluated on this path (non-trivial)
@@ -206,6 +209,10 @@ func (st *State) clone() *State {
 	st.globals = st.globals.child()
 	n.choices = st.choices.child()
 	st.choices = st.choices.child()
+	n.dom = st.dom.child()
+	st.dom = st.dom.child()
+	n.multi = st.multi.child()
+	st.multi = st.multi.child()
 	n.pc = append([]*Term(nil), st.pc...)
 	n.unwind = make(map[*ssa.BasicBlock]int, len(st.unwind))
 	for k, v := range st.unwind {
